@@ -121,3 +121,5 @@ def run(chk):
         chk.violation('thdm:amu1L', 'C03:thdm-amu1L:formula', 'THDM amu1L differs from the flavour-summed one-loop formula '
                       '(arXiv:1607.06292 generalised to 3x3 Yukawa matrices) for some parameters',
                       '#!/bin/sh\ncd %s && exec python3-vt -m props.replay_c03 thdm\n' % VERIF)
+    from . import glue
+    glue.run(chk, 'C03')
